@@ -161,7 +161,8 @@ def process_suite(rep, mod, suite, model_ok, max_shrink=3):
                 dis.append((c, il, ml))
     if len(rep.samples) < 6 and cases:
         c = cases[min(len(cases) - 1, 3)]
-        rep.samples.append({"suite": suite.name, "ops": c.ops[:12], "impl": impl.get(c.cid, [])[:12]})
+        cut = lambda l: l if len(l) <= 240 else l[:200] + "...(%d chars)" % len(l)
+        rep.samples.append({"suite": suite.name, "ops": [cut(o) for o in c.ops[:12]], "impl": [cut(l) for l in impl.get(c.cid, [])[:12]]})
     rep.disagreements += len(dis)
 
     # --- monitor failures are failing inputs: shrink and report (one per signature) -------------
@@ -189,7 +190,7 @@ def process_suite(rep, mod, suite, model_ok, max_shrink=3):
         r = suite.monitor(cc, i2, s2) or v
         path = rep.replay_path(suite.name)
         write_replay(path, rep.prop, suite, cc, r[0], ["impl: " + l for l in i2[:40]] + ["signature: " + str(sig), "cases failing with this signature in the run: %d" % len(lst)])
-        entry = {"kind": "monitor", "suite": suite.name, "reason": r[0], "signature": sig, "replay": path, "found": True}
+        entry = {"kind": "monitor", "suite": suite.name, "reason": r[0][:800], "signature": sig, "replay": path, "found": True}
         kf = vlib.known_open(rep.prop, sig)
         if kf:
             rep.known.append((entry, kf))
